@@ -16,6 +16,19 @@ CLAIMS = {
              "hand-written model of crc.py is tied by differential testing, not by a proof about Python.",
         technique="Coq proof (kernel sweeps + induction) + translator + model/implementation correspondence",
         design="4/C12"),
+    "C20": dict(
+        text="26 Coq theorems (axiom-free) covering every field the property names: the conformance block (all 2^17 "
+             "flag sets encode to the Green-Book bits and decode back, injective; all 2^24 words decode through the "
+             "Green-Book bits), security control, invoke-id and its 32-bit long form (all id < 2^24, all 2^32 words), "
+             "clock status, the six HDLC control bytes (incl. pairwise disjointness and refusal of sequence numbers "
+             "> 7), the format field (all 2^16 decodes, all lengths <= 2047, refusal above) and OBIS bytes/dotted. "
+             "Finite domains are enumerated completely in the kernel. Tie: conformance table regenerated from the "
+             "source on every run; every other field compared with the implementation exhaustively on its whole "
+             "domain (<= 2^17) in the quick tier.",
+        note="Trusted: Coq kernel + VM, translator, extraction + driver, Python harness. Out-of-range values the "
+             "library silently accepts (invoke-id > 15) are compared with the model but are outside the property.",
+        technique="Coq proof (complete kernel enumeration of finite domains + structural lemmas) + translator + exhaustive correspondence",
+        design="4/C20"),
 }
 
 NOT_YET = "not yet built in this stage of the work; see DESIGN.md section 6 (build order)"
